@@ -266,6 +266,20 @@ Theorem C16_config_by_value_necessary :
 Proof. exact by_value_necessary. Qed.
 Print Assumptions C16_config_by_value_necessary.
 
+(* The validator registration round that follows a refresh (the other user of the configuration in
+   force; it runs in a goroutine of its own, where a panic ends the process) completes after every
+   history of documents; with the allocating decoder it is the round after `null` that panics. *)
+Theorem C16_config_registration_no_panic : forall ds,
+  is_ok (registration_round (refresh_all true None ds)) = true.
+Proof. exact registration_no_panic. Qed.
+Print Assumptions C16_config_registration_no_panic.
+
+Theorem C16_config_registration_by_value_necessary : forall g cur,
+  registration_round (refresh_gen g false cur (DBare BNull)) = Panic /\
+  registration_round (refresh_gen g true cur (DBare BNull)) = registration_round cur.
+Proof. exact registration_by_value_necessary. Qed.
+Print Assumptions C16_config_registration_by_value_necessary.
+
 Example C16_config_example :
   let good := DV2 {| d2_fields_ok := true; d2_relays := [(1, false)];
                      d2_proposers := [Some {| pp_key := PKValidator 2; pp_reset := false; pp_relays := [{| prl_addr := 3; prl_entry := Some false |}] |}] |} in
